@@ -73,6 +73,9 @@ func genC18(g *gen) {
 					lv++
 				}
 			}
+			if len(steps) == 0 { // every goroutine does something
+				steps = append(steps, fmt.Sprintf("dump $%d", shared[0]))
+			}
 			parts = append(parts, strings.Join(steps, " ; "))
 		}
 		g.n++
